@@ -193,12 +193,29 @@ pub fn run(thorough: bool) -> Report {
                     let seq = decode_seq(i, base, len);
                     let hist: Vec<Ev> = seq.iter().map(|e| Ev::Line(edit_line(evs[*e].0, evs[*e].1))).collect();
                     let mut s = Sess::new();
-                    for e in &hist {
+                    for (k, e) in hist.iter().enumerate() {
                         if let CallResult::Panic(p) = s.apply(e) {
                             return Some(Violation {
                                 signature: format!("panic {}", short_panic(&p)),
                                 detail: p,
                                 case: case_history(&hist, false, false),
+                            });
+                        }
+                        // list after every step: what LIST shows must follow each edit
+                        s.recs.clear();
+                        let _ = s.apply(&Ev::Line("LIST".into()));
+                        let listed: Vec<String> = s.recs.iter().filter_map(|r| if let Rec::Print(p) = r { Some(p.clone()) } else { None }).collect();
+                        let want: Vec<String> = model(&hist[..=k]).iter().map(|(key, c)| fresh_listing(*key, *c)).collect();
+                        if listed != want {
+                            let mut h: Vec<Ev> = vec![];
+                            for e2 in &hist[..=k] {
+                                h.push(e2.clone());
+                                h.push(Ev::Line("LIST".into()));
+                            }
+                            return Some(Violation {
+                                signature: "LIST differs (listing after every edit)".into(),
+                                detail: format!("after {} edits with a LIST after each, LIST gave {:?}, expected {:?}", k + 1, listed, want),
+                                case: case_history(&h, false, false),
                             });
                         }
                     }
